@@ -43,7 +43,7 @@ Record sst := mkS {
 }.
 
 Definition sschedule (s : sst) (d p : Z) : sst * out :=
-  let id := znext s + 1 in
+  let id := alloc_id (znext s) (zrefer s) in
   let n := if zwheel s then mkNode id d p else mkNode id (zclock s + d + p) p in
   (mkS (zwheel s) (zclock s) (ztt s) (zrefer s ++ [id]) id (zreq s ++ [n]) (zdels s) (zpending s),
    OId (sched_PendingQueueCapacity <=? Z.of_nat (length (zreq s))) id).
